@@ -5,7 +5,7 @@ import os
 ROOT = os.path.dirname(os.path.dirname(os.path.abspath(__file__)))
 
 HOOK_COMMITS = ["7a8ba4f"]
-FIX_COMMITS = ["5737839", "2d5e69c", "bf43ee9"]
+FIX_COMMITS = ["5737839", "2d5e69c", "bf43ee9", "0b45cfb", "823a22a"]
 
 CHECKS = {
     "C01": dict(
@@ -118,6 +118,16 @@ CHECKS["C18"] = dict(
          "under biclosed2rigid must be well-typed with the images of domain and codomain (J18).",
     note="Trusted: TLC, projections of rigid diagrams and of nested biclosed types. CFG menu lives in the harness.",
     ref="5/C18", technique="TLA+ spec + TLC-generated sentences and rule instances, trace validation")
+
+CHECKS["C11"] = dict(
+    text="Ring16.tla gives exact arithmetic in Z[e^{i pi/8}][1/sqrt2]; Gates.tla states the gate table in the "
+         "[input, output] convention and the meaning of a pure circuit as the ordered product of whiskered gates; "
+         "TLC proves exact unitarity/isometry and the dagger rule for every circuit in bounds and computes, for "
+         "every recorded circuit (model states, simulated deeper circuits, all rewirings on <= 4 qubits), the exact "
+         "tensor it and its dagger must evaluate to; the library's float arrays are compared with the float image "
+         "under a fixed tolerance. The spec's table is cross-checked against pytket on every run.",
+    note="Trusted: TLC, 10-line float comparison, pytket for validating the table. Phases on the 1/8-turn grid only.",
+    ref="5/C11", technique="TLA+ exact-arithmetic spec + TLC as reference evaluator, replay of model circuits")
 
 NOT_YET = {}
 
